@@ -144,6 +144,14 @@ def scenarios(tier, seed=0):
         sc = mk("10/15", 0, D(2001, 10, 12), D(2003, 6, 30) if not off else D(2002, 6, 30), off, thermal=True, word="steady16")
         sc["thermal_crop"] = "WheatGDD"
         out.append(sc)
+    # thermal-time crop under degree-day methods 1 and 2 (keyword override; one built-in crop uses 2) with cold days (maximum below the
+    # base temperature) and tropical nights before maturity
+    for off in (False, True):
+        for meth in (1, 2):
+            for word in ("mix", "NNCNNNFNNRNNTNN"):
+                sc = mk("05/01", 0, D(2001, 4, 29), D(2002, 8, 30) if not off else D(2001, 9, 30), off, thermal=True, word=word)
+                sc["gddmethod"] = meth
+                out.append(sc)
     # planting / harvest dates written without zero padding ('5/1', '1/5', '5/12'): month first, whatever the day
     for off in (False, True):
         for planting, harvest in (("5/1", None), ("1/5", None), ("5/1", "5/12"), ("5/1", "6/2"), ("12/20", "1/9")):
@@ -179,7 +187,7 @@ def _build_spec(scn):
     elif scn["thermal"] and scn.get("thermal_crop"):
         crop = {"name": scn["thermal_crop"], "planting": scn["planting"], "harvest": scn["harvest"], "scale": None, "gddscale": None, "kw": {}}
     elif scn["thermal"]:
-        crop = {"name": "MaizeGDD", "planting": scn["planting"], "harvest": scn["harvest"], "scale": None, "gddscale": 0.15, "kw": {}}
+        crop = {"name": "MaizeGDD", "planting": scn["planting"], "harvest": scn["harvest"], "scale": None, "gddscale": 0.15, "kw": ({"GDDmethod": scn["gddmethod"]} if scn.get("gddmethod") else {})}
     else:
         # canopy decline slowed a little so that the scaled crop reaches maturity instead of always dying of senescence first
         cdc = S.scaled_crop_kwargs("Maize", LENGTHS[L])["CDC_CD"] * 0.6
